@@ -2,7 +2,8 @@ import XrsVerif.Proofs.ILang
 /-
   Proofs/ILangBin.lean -- generic ILang lemmas added for the refinement proof of `_cpu_bin`
   (Proofs/ILBin.lean): one rewriting rule per statement kind (so a proof can step through a program without
-  unfolding `exec` over a whole block), the `while` rule, `fdiv` by a positive literal, a wrapped 1-D read.
+  unfolding `exec` over a whole block; `seq` / `while` rules are in Proofs/ILang.lean), `fdiv` by a positive literal,
+  the bounds check of a possibly negative index.
 -/
 namespace XrsVerif.IL
 open XrsVerif
@@ -13,14 +14,6 @@ theorem exec_seq (fuel : Nat) (a b : St) (s : State F) :
     exec fuel (.seq a b) s =
       if (exec fuel a s).ctl = .run then exec fuel b (exec fuel a s) else exec fuel a s := by
   simp only [exec]
-
-theorem exec_seq_run (fuel : Nat) (a b : St) (s : State F) (h : (exec fuel a s).ctl = .run) :
-    exec fuel (.seq a b) s = exec fuel b (exec fuel a s) := by
-  rw [exec_seq]; simp [h]
-
-theorem exec_seq_stop (fuel : Nat) (a b : St) (s : State F) (h : (exec fuel a s).ctl ≠ .run) :
-    exec fuel (.seq a b) s = exec fuel a s := by
-  rw [exec_seq]; simp [h]
 
 theorem exec_setI (fuel : Nat) (v : String) (e : IE) (s : State F) (h : e.ok s = true) :
     exec fuel (.setI v e) s = { s with ienv := setS s.ienv v (e.eval s) } := by
@@ -46,22 +39,11 @@ theorem exec_skip (fuel : Nat) (s : State F) : exec fuel .skip s = s := by simp 
 theorem exec_brk (fuel : Nat) (s : State F) : exec fuel .brk s = { s with ctl := .brk } := by simp only [exec]
 theorem exec_ret (fuel : Nat) (s : State F) : exec fuel .ret s = { s with ctl := .ret } := by simp only [exec]
 
-/-- the loop test fails: the `while` ends, one unit of fuel is enough -/
-theorem exec_while_exit (fuel : Nat) (c : BE) (b : St) (s : State F) (hok : c.ok s = true)
-    (h : c.eval s = false) : exec (fuel + 1) (.while c b) s = s := by
-  simp [exec, hok, h]
-
-/-- one iteration whose body ends normally -/
-theorem exec_while_step (fuel : Nat) (c : BE) (b : St) (s : State F) (hok : c.ok s = true)
+/-- one iteration whose body ends normally (`Proofs/ILang.lean: exec_while_step` without the `continue` case and
+    without the control reset) -/
+theorem exec_while_step_run (fuel : Nat) (c : BE) (b : St) (s : State F) (hok : c.ok s = true)
     (h : c.eval s = true) (hb : (exec fuel b s).ctl = .run) :
     exec (fuel + 1) (.while c b) s = exec fuel (.while c b) (exec fuel b s) := by
-  simp only [exec, hok, h, if_true]
-  split <;> simp_all
-
-/-- one iteration whose body ends with `break` -/
-theorem exec_while_brk (fuel : Nat) (c : BE) (b : St) (s : State F) (hok : c.ok s = true)
-    (h : c.eval s = true) (hb : (exec fuel b s).ctl = .brk) :
-    exec (fuel + 1) (.while c b) s = { exec fuel b s with ctl := .run } := by
   simp only [exec, hok, h, if_true]
   split <;> simp_all
 
